@@ -304,7 +304,7 @@ func accName(v ssa.Value) string {
 		return p
 	}
 	if ph, ok := v.(*ssa.Phi); ok && ph.Comment != "" {
-		return ph.Comment
+		return phiName(ph)
 	}
 	if c, ok := v.(*ssa.Convert); ok {
 		return "conv(" + accName(c.X) + ")"
